@@ -54,7 +54,19 @@ offers = [()] + [o for n in (1, 2, 3) for o in itertools.product(METHODS, repeat
 if tier() != 'thorough':
     offers = [o for o in offers if len(o) < 3 or len(set(o)) == 3]
 
-def socks5_session(port, offer, cred):
+_ue = socket.socket(socket.AF_INET, socket.SOCK_DGRAM)
+_ue.bind(('127.0.0.1', 0))
+uecho_port = _ue.getsockname()[1]
+def _ue_loop():
+    while True:
+        try:
+            d, a = _ue.recvfrom(4000)
+            _ue.sendto(d, a)
+        except OSError:
+            return
+threading.Thread(target=_ue_loop, daemon=True).start()
+
+def socks5_session(port, offer, cred, cmd=1):
     """returns dict(selected=method|None, routed=bool)"""
     s = socket.create_connection(('127.0.0.1', port), timeout=4)
     try:
@@ -73,6 +85,22 @@ def socks5_session(port, offer, cred):
                 return {'selected': 2, 'routed': False}
         elif sel != 0:
             return {'selected': sel, 'routed': False, 'weird': True}
+        if cmd == 3:
+            # UDP ASSOCIATE: routed = the listener grants a relay (and it relays)
+            s.sendall(bytes([5, 3, 0]) + socks5_addr('0.0.0.0', 0))
+            rep = recv_exact(s, 10, 3)
+            if len(rep) >= 10 and rep[1] == 0:
+                u = socket.socket(socket.AF_INET, socket.SOCK_DGRAM)
+                u.settimeout(1.0)
+                try:
+                    u.sendto(b'\0\0\0' + socks5_addr('127.0.0.1', uecho_port) + b'uping', ('127.0.0.1', struct.unpack('>H', rep[8:10])[0]))
+                    d, _ = u.recvfrom(2000)
+                    relayed = d.endswith(b'uping')
+                except OSError:
+                    relayed = False
+                u.close()
+                return {'selected': sel, 'routed': True, 'relayed': relayed}
+            return {'selected': sel, 'routed': False}
         s.sendall(bytes([5, 1, 0]) + socks5_addr('127.0.0.1', echo.port))
         rep = recv_exact(s, 10, 3)
         if len(rep) >= 2 and rep[1] == 0:
@@ -84,12 +112,14 @@ def socks5_session(port, offer, cred):
     finally:
         s.close()
 
-cases = [(l, o, c) for l in LIST for o in offers for c in CREDS]
+# every command is behind the same credential check: CONNECT for the whole grid, UDP ASSOCIATE for the offers
+# that can lead to a sub-negotiation or to no authentication at all
+cases = [(l, o, c, 1) for l in LIST for o in offers for c in CREDS] + [(l, o, c, 3) for l in LIST for o in offers if len(o) <= 2 and (2 in o or 0 in o) for c in CREDS]
 def run_case(case):
-    l, o, c = case
-    return socks5_session(ports[l], o, c)
+    l, o, c, cmd = case
+    return socks5_session(ports[l], o, c, cmd)
 results = run_parallel(cases, run_case, workers=16)
-for (l, o, c), r in zip(cases, results):
+for (l, o, c, cmd), r in zip(cases, results):
     evals += 1
     if isinstance(r, tuple):
         machinery(f'{l} {o} {c}: {r}')
@@ -100,9 +130,11 @@ for (l, o, c), r in zip(cases, results):
     else:
         want_sel = 0 if 0 in o else (2 if 2 in o else 0xff)
     routed_ok = (want_sel == 2 and accepts(l, c)) or (want_sel == 0)
-    distinct.add((l, r['selected'], r['routed']))
-    replay = {'listener_auth': l, 'offer': list(o), 'credentials': [c[0][:12].hex(), c[1][:12].hex()], 'observed': r}
-    if required and r['selected'] == 0:
+    distinct.add((l, cmd, r['selected'], r['routed']))
+    replay = {'listener_auth': l, 'command': {1: 'CONNECT', 3: 'UDP ASSOCIATE'}[cmd], 'offer': list(o), 'credentials': [c[0][:12].hex(), c[1][:12].hex()], 'observed': r}
+    if cmd == 3:
+        l = l + '/udp-associate'
+    if required and r['selected'] == 0 and cmd == 1:
         chk.violation('socks.negotiation', f'no-auth-method-selected-although-required:{l}', f'listener {l}: offer {list(o)}: method 0 selected', replay)
     if r['routed'] and not routed_ok:
         why = 'unauthenticated-peer-routed' if required else 'routed-unexpectedly'
@@ -331,6 +363,6 @@ for o in list(tls_up.values()) + list(cecho.values()) + [echo]:
 if evals < 500 or len(distinct) < 20:
     machinery(f'vacuous: evals={evals} distinct={len(distinct)}')
 cov = {'evaluations': evals, 'distinct_nontrivial': len(distinct), 'transitions': evals, 'traces_validated_against_impl': evals,
-       'rule': 'real binary: (1) 4 listener auth configurations x all method-offer lists of length 0-3 over {0,1,2,0x80,0xff} (quick: length-3 lists with distinct methods) x 9 credential pairs + SOCKS4 ids; (2) listener {http,socks,quic} x client certificate policy {absent,optional,required} x presented {none,valid,foreign}; (3) connector {http,socks,quic} x upstream named by host name / address literal x insecure x upstream certificate {valid,foreign,wrongname}; routed = success reply and echo round trip',
+       'rule': 'real binary: (1) 4 listener auth configurations x all method-offer lists of length 0-3 over {0,1,2,0x80,0xff} (quick: length-3 lists with distinct methods) x 9 credential pairs x command {CONNECT, UDP ASSOCIATE for offers of length <= 2} + SOCKS4 ids; (2) listener {http,socks,quic} x client certificate policy {absent,optional,required} x presented {none,valid,foreign}; (3) connector {http,socks,quic} x upstream named by host name / address literal x insecure x upstream certificate {valid,foreign,wrongname}; routed = success reply and echo round trip',
        'socks_sessions': len(cases), 'tls_listener_cells': len(tls_cases), 'tls_connector_cells': len(cells), 'schedule_control': 'kernel', 'samples': samples}
 sys.exit(chk.finish('model_checking', cov, ['E4 part: certificates minted by bin/mkcerts with openssl; the QUIC listener is reached through a front redproxy hop acting as QUIC client']))
